@@ -196,7 +196,10 @@ def problem(p):
         ll = None
         if log is not None and i in log.keys() and len(log[i]) > 0:
             ll = [int(x) for x in log[i]]
-        goals.append({"state": state(st), "lanelets": ll})
+        sd = state(st)
+        if ll is not None:
+            sd.pop("position", None)  # derived from the lanelets (their polygons)
+        goals.append({"state": sd, "lanelets": ll})
     return {"initial_state": state(p.initial_state, initial=True), "goals": goals}
 
 
